@@ -218,6 +218,11 @@ func build(c *crit, hour int) imap.SearchCriteria {
 		out.SeqNum = append(out.SeqNum, set)
 	}
 	for _, s := range c.UID {
+		if len(s) == 1 && s[0] == [2]uint32{0, 0} {
+			// the model's "$": the saved search result (a marker value, not a list of ranges)
+			out.UID = append(out.UID, imap.SearchRes())
+			continue
+		}
 		var set imap.UIDSet
 		for _, r := range s {
 			set = append(set, imap.UIDRange{Start: imap.UID(r[0]), Stop: imap.UID(r[1])})
@@ -261,6 +266,10 @@ func observe(c *imap.SearchCriteria) crit {
 		out.Seq = append(out.Seq, set)
 	}
 	for _, s := range c.UID {
+		if imap.IsSearchRes(s) {
+			out.UID = append(out.UID, [][2]uint32{{0, 0}})
+			continue
+		}
 		set := [][2]uint32{}
 		for _, r := range s {
 			set = append(set, [2]uint32{uint32(r.Start), uint32(r.Stop)})
